@@ -795,6 +795,35 @@ def t_threshold_edges(ctx):
                         'table threshold')
 
 
+def _noise(n, seed=0):
+    """n incompressible, reproducible bytes"""
+    import hashlib
+    out = bytearray()
+    k = 0
+    while len(out) < n:
+        out += hashlib.sha256(b'%d:%d' % (seed, k)).digest()
+        k += 1
+    return bytes(out[:n])
+
+
+def t_big(ctx, which):
+    """frames beyond 1 MiB (legal up to 2^21-1 bytes and, for this library,
+    beyond): compressible and incompressible, followed by small packets that
+    must survive intact"""
+    big = [(0x05, _noise(1536 * 1024, 1)), (0x01, b'ab'), (0x05, b'tail'),
+           (0x80, bytes(3 * 1024 * 1024)), (0x05, b'end')]
+    plans = ['whole', [65536, 1000, 300000]]
+    cases = [(None, None), (-1, None), (0, None), (256, None),
+             (2 ** 31 - 1, None), (64, b'0123456789abcdef')]
+    m, sec = cases[which]
+    case = {'packets': big if sec is None else big[:3], 'mode': m,
+            'secret': sec, 'compress': [True, False], 'plans': plans}
+    loop_case(ctx, case)
+    ctx.sample({'mode': m, 'secret': bool(sec),
+                'payload_sizes': [len(p) for i, p in case['packets']]},
+               'big')
+
+
 def t_sessions(ctx, n):
     ends = ['disconnect', 'eof', 'garbage', 'user_disconnect',
             'user_immediate']
@@ -919,6 +948,8 @@ def tasks(tier):
           ('sessions', t_sessions, dict(n=40 if q else 1500)),
           ('burst', t_burst, dict(n=40 if q else 1500)),
           ('mutated_streams', t_fuzz_hyp, dict(n=400 if q else 20000))]
+    for w in range(6):
+        tl.append(('big_%d' % w, t_big, dict(which=w)))
     if not q:
         tl.append(('fuzz_stream', t_fuzz, dict(runs=400000)))
     nsh = 6
